@@ -579,36 +579,6 @@ def deserialize_opset_import(
     return {opset.domain: opset.version for opset in protos}
 
 
-def _parse_experimental_function_value_info_name(
-    name: str,
-) -> tuple[str, str, str] | None:
-    """Get the function domain, name and value name if the value info is for a function.
-
-    The experimental format is:
-    {function_domain}::{function_name}/{value_name}
-
-    Args:
-        name: The name stored in the value info.
-
-    Returns:
-        A tuple of the function domain, function name and value name if the value info is for a function.
-        None otherwise.
-    """
-    # Only the first "/" separates the function from the value: value names
-    # commonly contain "/" themselves (e.g. "/model/layer/Add_output_0")
-    function, separator, value_name = name.partition("/")
-    if not separator:
-        return None
-    parts = function.split("::")
-    expected_parts = 2
-    if len(parts) != expected_parts:
-        return None
-    # NOTE: There will not be overload because overloads are introduced in ONNX IR v10, which also
-    # introduces the ValueInfoProto for functions
-    function_domain, function_name = parts
-    return function_domain, function_name, value_name
-
-
 def deserialize_model(proto: onnx.ModelProto) -> _core.Model:
     """Deserialize an ONNX ModelProto into an IR Model.
 
@@ -711,25 +681,25 @@ def _deserialized_experimental_value_info_for_function_ir9(
         _protocols.OperatorIdentifier,
         dict[str, onnx.ValueInfoProto],
     ] = collections.defaultdict(dict)
+    # Match the names against the functions of the model rather than parsing them:
+    # the function name, the domain and the value name may themselves contain "/" or "::",
+    # and the format has no room for an overload.
+    function_prefixes = [
+        (f"{function.domain}::{function.name}/", function_id)
+        for function_id, function in functions.items()
+    ]
     for value_info_proto in value_info_protos:
-        if (
-            parsed := _parse_experimental_function_value_info_name(value_info_proto.name)
-        ) is None:
-            continue
-        function_domain, function_name, value_name = parsed
-        function_overload = ""
-        # TODO(justinchuby): Create a constructor for OperatorIdentifier so we don't create tuples manually
-        function_id = (function_domain, function_name, function_overload)
-        function = functions.get(function_id)
-        if function is None:
-            # Function not found
+        matched = False
+        for prefix, function_id in function_prefixes:
+            if value_info_proto.name.startswith(prefix):
+                value_name = value_info_proto.name[len(prefix) :]
+                function_value_value_info_mapping[function_id][value_name] = value_info_proto
+                matched = True
+        if not matched and "::" in value_info_proto.name:
             logger.debug(
-                "Function with ID '%s' not found in model functions. Value info '%s' will be ignored.",
-                function_id,
+                "No function in the model matches value info '%s'. It will be ignored.",
                 value_info_proto.name,
             )
-            continue
-        function_value_value_info_mapping[function_id][value_name] = value_info_proto
     for function_id, function in functions.items():
         for input in function.inputs:
             if input.name in function_value_value_info_mapping[function_id]:
